@@ -378,6 +378,9 @@ def make_content(desc):
     makes the last byte differ, {"hex": ...} is literal."""
     if "hex" in desc:
         return bytes.fromhex(desc["hex"])
+    if "zeros" in desc:
+        head = desc.get("head", 0)
+        return (b"hsverif-data:" * (head // 13 + 1))[:head] + b"\0" * desc["zeros"]
     pat = bytes.fromhex(desc["pat"]) or b"\0"
     n = desc["n"]
     b = (pat * (n // len(pat) + 1))[:n]
@@ -389,6 +392,8 @@ def make_content(desc):
 def content_summary(desc):
     if "hex" in desc:
         return {"len": len(desc["hex"]) // 2, "head": desc["hex"][:16]}
+    if "zeros" in desc:
+        return {"len": desc.get("head", 0) + desc["zeros"], "zero_tail": desc["zeros"]}
     return {"len": desc["n"], "pat": desc["pat"][:16]}
 
 
